@@ -9,6 +9,7 @@ import (
 	"go/parser"
 	"go/token"
 	"os"
+	"path"
 	"path/filepath"
 	"sort"
 	"strings"
@@ -270,6 +271,10 @@ func init() {
 					}
 				}
 				ef.Name = fmt.Sprintf("extra%d.proto", i)
+				if rapid.IntRange(0, 2).Draw(t, "samebase") == 0 {
+					// an unrelated file of another package and directory that happens to have the generated file's base name
+					ef.Name = fmt.Sprintf("third_party%d/%s", i, path.Base(v.File.Name))
+				}
 				ef.Package = fmt.Sprintf("extra%d", i)
 				ef.GoPackage = fmt.Sprintf("vcase.test/m/extra%d", i)
 				x := extraFile{File: ef, Imported: rapid.Bool().Draw(t, "imported")}
